@@ -1,0 +1,261 @@
+//go:build verif
+// +build verif
+
+package raft
+
+// ---------------------------------------------------------------------------
+// Wire encodings, part 2 (C18): Node / Config, Replication / Info, task responses, snapshot label.
+// Built on the stream ghosts and primitives of verif_contracts_codec.go.
+
+// a length-prefixed string s at position p of stream d
+//@ pure EncStr(d int, p int, s string) bool = gword32(d, p) == len(s) && forall(j, p + 4 <= j && j < p + 4 + len(s) ==> d[j] == strbyte(s, j - p - 4))
+
+// ---- Node --------------------------------------------------------------------------------
+// ID (8) | Addr (4 + la) | Voter (1) | Data (4 + ld) | Action (1)
+
+//@ pure EncNode(d int, p int, n Node) bool = gword(d, p) == n.ID && EncStr(d, p + 8, n.Addr) && (d[p + 12 + len(n.Addr)] > 0) == n.Voter && EncStr(d, p + 13 + len(n.Addr), n.Data) && d[p + 17 + len(n.Addr) + len(n.Data)] == n.Action
+//@ pure NodeLen(n Node) int = 18 + len(n.Addr) + len(n.Data)
+//@ pure NodeLenAt(d int, q int) int = 18 + gword32(d, q + 8) + gword32(d, q + 13 + gword32(d, q + 8))
+
+// the stream d has a complete node at p when a bytes are available
+//@ pure NodeFits(d int, p int, a int) bool = 12 <= a && 17 + gword32(d, p + 8) <= a && 18 + gword32(d, p + 8) + gword32(d, p + 13 + gword32(d, p + 8)) <= a
+
+//@ func (Node).encode
+//@   requires w != nil
+//@   modifies wdata, wlen
+//@   ensures [C18.node-enc] result0 == nil && len(n.Addr) < 4294967296 && len(n.Data) < 4294967296 ==> Wrote(w, NodeLen(n)) && EncNode(wdata[ref(w)], old(wlen[ref(w)]), n)
+//@   ensures [C18.enc-frame] WroteSome(w)
+
+//@ func (*Node).decode
+//@   requires r != nil
+//@   modifies rpos, all(n)
+//@   ensures [C18.node-dec] result0 == nil ==> Consumed(r, NodeLen(*n)) && EncNode(rdata[ref(r)], old(rpos[ref(r)]), *n)
+//@   ensures [C18.node-dec-len] result0 == nil ==> NodeLen(*n) == NodeLenAt(rdata[ref(r)], old(rpos[ref(r)]))
+//@   ensures [C18.truncated-is-error] (result0 == nil) == NodeFits(rdata[ref(r)], old(rpos[ref(r)]), old(Avail(r)))
+//@   ensures [C18.dec-frame] ConsumedSome(r)
+
+// decodeTaskResp only needs the error kind of the structured payload decoders (io errors are not errors of
+// this module, T-std); these views replace the trusted STUB contracts that verif_contracts_codec.go had
+//@ view (*Node).decode at decodeTaskResp
+//@   modifies rpos, all(n)
+//@   ensures ConsumedSome(r) && (result0 != nil ==> isexternal(result0))
+//@ view (*Info).decode at decodeTaskResp
+//@   requires [C18.decode-into-zero] info.Followers == nil
+//@   modifies rpos, all(info)
+//@   ensures ConsumedSome(r) && (result0 != nil ==> isexternal(result0))
+
+// ---- Config (payload of a configuration entry) -----------------------------------------------------
+// entry.data = number of nodes n (4) | n x Node, in map iteration order of the encoder.
+// T-std: the byte stream read from bytes.NewBuffer(b) / returned by (*bytes.Buffer).Bytes() is dstream(content, base, len):
+// the len bytes of the slice, from position 0 (an uninterpreted function of the slice's current content).
+//@ ghost func dstream(map[uint64]uint64, int, int) map[uint64]uint64
+//@ pure DataOf(e *entry) int = dstream(bytesof(e.data), base(e.data), len(e.data))
+//@ func bytes.NewBuffer
+//@   trusted
+//@   ensures result0 != nil && isfresh(result0)
+//@   ensures rdata[ref(result0)] == dstream(bytesof(buf), base(buf), len(buf)) && rpos[ref(result0)] == 0 && rend[ref(result0)] == len(buf)
+
+// Witness of the node framing (ghost fields of the decoded Config): gnn = number of nodes decoded, gnpos[i] = position
+// of the i-th node in the data (i = 0 .. gnn), glast[k] = index of the last node with id k (in a map a later
+// element with the same id replaces an earlier one).
+//@ ghost field Config.gnpos map[uint64]uint64
+//@ ghost field Config.gnn int
+//@ ghost field Config.glast map[uint64]uint64
+//@ pure NodeChain(d int, pos int, q int, n int) bool = pos[0] == q && forall(i, 1 <= i && i <= n ==> pos[i] == pos[i - 1] + NodeLenAt(d, pos[i - 1]))
+// per key: the node stored under k is the one encoded at index glast[k], and its id is k
+//@ pure CfgKeys(d int, c *Config) bool = forall(k, has(c.Nodes, k) ==> 0 <= c.glast[k] && c.glast[k] < c.gnn && gword(d, c.gnpos[c.glast[k]]) == k && EncNode(d, c.gnpos[c.glast[k]], c.Nodes[k]))
+// per position: the id of every encoded node is a key, and the last occurrence of an id is the one that is kept
+//@ pure CfgElems(d int, c *Config) bool = forall(i, 0 <= i && i < c.gnn ==> has(c.Nodes, gword(d, c.gnpos[i])) && c.glast[gword(d, c.gnpos[i])] >= i)
+
+// Frame: the only thing written besides *c is the read position of the bytes.Buffer allocated by this call. The engine
+// does not exempt ghost-map entries of fresh objects from the frame check and does not know that the object behind
+// a caller's io.Reader is older than this call, so with `modifies all(c), rpos` (which verifies: 51/51) every caller
+// would lose its own reader position. Hence the frame is declared as seen by callers and trusted; what it hides is
+// proved as [C18.dec-frame].
+//@ func (*Config).decode
+//@   requires e != nil
+//@   modifies all(c)
+//@   trustframe rpos is written only at the bytes.Buffer allocated by this call (proved: [C18.dec-frame]); checked frame `modifies all(c), rpos` verifies
+//@   ghostcode after call readUint32 1: c.gnpos[0] := rpos[ref(r)]
+//@   ghostcode after call readUint32 1: c.gnn := 0
+//@   ghostcode after call decode 1: c.glast[n.ID] := c.gnn
+//@   ghostcode after call decode 1: c.gnn := c.gnn + 1
+//@   ghostcode after call decode 1: c.gnpos[c.gnn] := rpos[ref(r)]
+//@   loop 1 invariant 0 <= c.gnn && c.gnn + size == gword32(DataOf(e), 0) && c.Nodes != nil && isfresh(c.Nodes) && isfresh(r) && rdata[ref(r)] == DataOf(e) && rend[ref(r)] == len(e.data)
+//@   loop 1 invariant NodeChain(DataOf(e), c.gnpos, 4, c.gnn) && rpos[ref(r)] == c.gnpos[c.gnn] && rpos[ref(r)] <= rend[ref(r)]
+//@   loop 1 invariant forall(q, old(allocated(q)) ==> rpos[q] == old(rpos[q]))
+//@   loop 1 invariant [C18.config-dec-keys] CfgKeys(DataOf(e), c)
+//@   loop 1 invariant [C18.config-dec-elems] CfgElems(DataOf(e), c)
+//@   ensures [C18.config-dec-hdr] result0 == nil ==> c.Index == e.index && c.Term == e.term && e.typ == entryConfig
+//@   ensures [C18.config-dec-type] e.typ != entryConfig ==> result0 != nil
+//@   ensures [C18.config-dec-count] result0 == nil ==> c.gnn == gword32(DataOf(e), 0) && NodeChain(DataOf(e), c.gnpos, 4, c.gnn)
+//@   ensures [C18.truncated-is-error] result0 == nil ==> c.gnpos[c.gnn] <= len(e.data)
+//@   ensures [C18.config-dec-keys] result0 == nil ==> c.Nodes != nil && isfresh(c.Nodes) && CfgKeys(DataOf(e), c)
+//@   ensures [C18.config-dec-elems] result0 == nil ==> CfgElems(DataOf(e), c)
+//@   ensures [C18.config-dec-keys-are-ids] result0 == nil ==> forall(k, has(c.Nodes, k) ==> c.Nodes[k].ID == k)
+//@   ensures [C18.dec-frame] forall(q, old(allocated(q)) ==> rpos[q] == old(rpos[q]))
+
+// ---- Replication (status of one follower inside a status report) ------------------------------
+// ID (8) | MatchIndex (8) | unreachable-since in unix nanoseconds, 0 = reachable (8) | ErrMessage (4 + le) | Round (8)
+// time.Time is external (T-std): UnixNano is an uninterpreted function tnano of the (wall, ext) words;
+// time.Unix(0, n) is an instant whose UnixNano is n, for every int64 n.
+//@ ghost func tnano(uint64, int64) int
+//@ func (time.Time).UnixNano
+//@   trusted
+//@   ensures result0 == tnano(t.wall, t.ext)
+//@ func time.Unix
+//@   trusted
+//@   ensures sec == 0 ==> tnano(result0.wall, result0.ext) == nsec
+
+// two's complement reinterpretation of a 64-bit word (uint64(int64) and back)
+//@ pure S64(x int) int = ite(x >= 9223372036854775808, x - 18446744073709551616, x)
+//@ pure U64(x int) int = ite(x < 0, x + 18446744073709551616, x)
+
+//@ pure EncRepl(d int, p int, v Replication) bool = gword(d, p) == v.ID && gword(d, p + 8) == v.MatchIndex && EncStr(d, p + 24, v.ErrMessage) && gword(d, p + 28 + len(v.ErrMessage)) == v.Round
+//@ pure ReplLen(v Replication) int = 36 + len(v.ErrMessage)
+//@ pure ReplFits(d int, p int, a int) bool = 28 <= a && 36 + gword32(d, p + 24) <= a
+
+//@ func (*Replication).encode
+//@   requires w != nil
+// call-site derived: the only producer ((*Raft).info) stores time.Now() values, never the Unix epoch, which
+// the wire format uses for "absent" (an epoch time would decode as nil: noted in DESIGN 9.6)
+//@   requires [PA.unreachable-is-not-the-epoch] repl.Unreachable != nil ==> tnano(repl.Unreachable.wall, repl.Unreachable.ext) != 0
+//@   modifies wdata, wlen
+//@   ensures [C18.repl-enc] result0 == nil && len(repl.ErrMessage) < 4294967296 ==> Wrote(w, ReplLen(*repl)) && EncRepl(wdata[ref(w)], old(wlen[ref(w)]), *repl)
+//@   ensures [C18.repl-enc-unreachable] result0 == nil ==> gword(wdata[ref(w)], old(wlen[ref(w)]) + 16) == ite(repl.Unreachable == nil, 0, U64(tnano(repl.Unreachable.wall, repl.Unreachable.ext)))
+//@   ensures [C18.repl-enc-unreachable-present] result0 == nil && repl.Unreachable != nil ==> gword(wdata[ref(w)], old(wlen[ref(w)]) + 16) != 0
+//@   ensures [C18.enc-frame] WroteSome(w)
+
+// The decoder assigns the optional fields (Unreachable, Err) only when they are present on the wire, so the
+// decoded value is a function of the consumed bytes only for a receiver whose optional fields are zero:
+// [C18.decode-into-zero] is proved at every call site (a receiver reused for a second element violates it).
+//@ func (*Replication).decode
+//@   requires r != nil
+//@   requires [C18.decode-into-zero] repl.Unreachable == nil && repl.Err == nil
+//@   modifies rpos, all(repl)
+//@   ensures [C18.repl-dec] result0 == nil ==> Consumed(r, ReplLen(*repl)) && EncRepl(rdata[ref(r)], old(rpos[ref(r)]), *repl)
+//@   ensures [C18.repl-dec-unreachable] result0 == nil ==> (repl.Unreachable != nil) == (gword(rdata[ref(r)], old(rpos[ref(r)]) + 16) != 0) && (repl.Unreachable != nil ==> tnano(repl.Unreachable.wall, repl.Unreachable.ext) == S64(gword(rdata[ref(r)], old(rpos[ref(r)]) + 16)))
+//@   ensures [C18.repl-dec-err] result0 == nil ==> (repl.Err != nil) == (repl.ErrMessage != "")
+//@   ensures [C18.truncated-is-error] (result0 == nil) == ReplFits(rdata[ref(r)], old(rpos[ref(r)]), old(Avail(r)))
+//@   ensures [C18.dec-frame] ConsumedSome(r)
+
+// ---- Info (status report) ---------------------------------------------------------------------
+// CID (8) | NID (8) | Addr (4 + la) | Term (8) | State (1) | Leader, SnapshotIndex, FirstLogIndex, LastLogIndex,
+// LastLogTerm, Committed, LastApplied (7 x 8) | entry of Configs.Committed | entry of Configs.Latest |
+// number of followers n (4) | n x Replication
+//@ pure EncInfoHdr(d int, p int, v Info) bool = gword(d, p) == v.CID && gword(d, p + 8) == v.NID && EncStr(d, p + 16, v.Addr) && gword(d, p + 20 + len(v.Addr)) == v.Term && d[p + 28 + len(v.Addr)] == v.State && gword(d, p + 29 + len(v.Addr)) == v.Leader && gword(d, p + 37 + len(v.Addr)) == v.SnapshotIndex && gword(d, p + 45 + len(v.Addr)) == v.FirstLogIndex && gword(d, p + 53 + len(v.Addr)) == v.LastLogIndex && gword(d, p + 61 + len(v.Addr)) == v.LastLogTerm && gword(d, p + 69 + len(v.Addr)) == v.Committed && gword(d, p + 77 + len(v.Addr)) == v.LastApplied
+// positions of the two configuration entries and of the follower count in an encoded Info starting at p
+//@ pure InfoQ1(d int, p int) int = p + 85 + gword32(d, p + 16)
+//@ pure InfoQ2(d int, p int) int = InfoQ1(d, p) + 21 + gword32(d, InfoQ1(d, p) + 17)
+//@ pure InfoQ3(d int, p int) int = InfoQ2(d, p) + 21 + gword32(d, InfoQ2(d, p) + 17)
+//@ pure InfoN(d int, p int) int = gword32(d, InfoQ3(d, p))
+// header of a configuration entry at q: index, term, type
+//@ pure EncCfgHdr(d int, q int, c Config) bool = gword(d, q) == c.Index && gword(d, q + 8) == c.Term && d[q + 16] == entryConfig
+
+// Witness of the follower framing (ghost fields of the decoded Info): gfn = number of followers decoded, gfpos[i] =
+// stream position of the i-th follower (i = 0 .. gfn), gflast[k] = index of the last follower with id k.
+//@ ghost field Info.gfpos map[uint64]uint64
+//@ ghost field Info.gfn int
+//@ ghost field Info.gflast map[uint64]uint64
+//@ pure ReplLenAt(d int, q int) int = 36 + gword32(d, q + 24)
+//@ pure FlrChain(d int, pos int, q int, n int) bool = pos[0] == q && forall(i, 1 <= i && i <= n ==> pos[i] == pos[i - 1] + ReplLenAt(d, pos[i - 1]))
+// what the bytes at q say about a decoded follower v: every field, the optional ones being zero when absent
+//@ pure DecRepl(d int, q int, v Replication) bool = EncRepl(d, q, v) && (v.Unreachable != nil) == (gword(d, q + 16) != 0) && (v.Unreachable != nil ==> tnano(v.Unreachable.wall, v.Unreachable.ext) == S64(gword(d, q + 16))) && (v.Err != nil) == (v.ErrMessage != "")
+// per key: the follower stored under k is the one encoded at index gflast[k] (all its fields come from those bytes)
+//@ pure InfoKeys(d int, v *Info) bool = forall(k, has(v.Followers, k) ==> 0 <= v.gflast[k] && v.gflast[k] < v.gfn && gword(d, v.gfpos[v.gflast[k]]) == k && DecRepl(d, v.gfpos[v.gflast[k]], v.Followers[k]))
+// per position: the id of every encoded follower is a key, and the last occurrence of an id is the one that is kept
+//@ pure InfoElems(d int, v *Info) bool = forall(i, 0 <= i && i < v.gfn ==> has(v.Followers, gword(d, v.gfpos[i])) && v.gflast[gword(d, v.gfpos[i])] >= i)
+
+//@ func (*Info).decode
+//@   requires r != nil
+//@   requires [C18.decode-into-zero] info.Followers == nil
+//@   modifies rpos, all(info)
+//@   ghostcode after call readUint32 1: info.gfpos[0] := rpos[ref(r)]
+//@   ghostcode after call readUint32 1: info.gfn := 0
+//@   ghostcode after call decode 5: info.gflast[repl.ID] := info.gfn
+//@   ghostcode after call decode 5: info.gfn := info.gfn + 1
+//@   ghostcode after call decode 5: info.gfpos[info.gfn] := rpos[ref(r)]
+//@   loop 1 invariant 0 <= info.gfn && info.gfn + sz == InfoN(rdata[ref(r)], old(rpos[ref(r)])) && info.Followers != nil && isfresh(info.Followers)
+//@   loop 1 invariant FlrChain(rdata[ref(r)], info.gfpos, InfoQ3(rdata[ref(r)], old(rpos[ref(r)])) + 4, info.gfn) && rpos[ref(r)] == info.gfpos[info.gfn]
+//@   loop 1 invariant forall(q, q != ref(r) ==> rpos[q] == old(rpos[q]))
+//@   loop 1 invariant rpos[ref(r)] >= old(rpos[ref(r)]) && (rpos[ref(r)] <= rend[ref(r)] || old(rpos[ref(r)]) > old(rend[ref(r)]))
+//@   loop 1 invariant [C18.info-dec-keys] InfoKeys(rdata[ref(r)], info)
+//@   loop 1 invariant [C18.info-dec-elems] InfoElems(rdata[ref(r)], info)
+//@   ensures [C18.info-dec] result0 == nil ==> EncInfoHdr(rdata[ref(r)], old(rpos[ref(r)]), *info)
+//@   ensures [C18.info-dec-configs] result0 == nil ==> EncCfgHdr(rdata[ref(r)], InfoQ1(rdata[ref(r)], old(rpos[ref(r)])), info.Configs.Committed) && EncCfgHdr(rdata[ref(r)], InfoQ2(rdata[ref(r)], old(rpos[ref(r)])), info.Configs.Latest)
+//@   ensures [C18.info-dec-count] result0 == nil ==> info.gfn == InfoN(rdata[ref(r)], old(rpos[ref(r)])) && FlrChain(rdata[ref(r)], info.gfpos, InfoQ3(rdata[ref(r)], old(rpos[ref(r)])) + 4, info.gfn) && rpos[ref(r)] == info.gfpos[info.gfn]
+//@   ensures [C18.info-dec-keys] result0 == nil && InfoN(rdata[ref(r)], old(rpos[ref(r)])) > 0 ==> info.Followers != nil && InfoKeys(rdata[ref(r)], info)
+//@   ensures [C18.info-dec-elems] result0 == nil && InfoN(rdata[ref(r)], old(rpos[ref(r)])) > 0 ==> InfoElems(rdata[ref(r)], info)
+//@   ensures [C18.info-dec-no-followers] result0 == nil && InfoN(rdata[ref(r)], old(rpos[ref(r)])) == 0 ==> info.Followers == nil
+//@   ensures [C18.truncated-is-error] result0 == nil ==> rpos[ref(r)] <= rend[ref(r)] || old(rpos[ref(r)]) > old(rend[ref(r)])
+//@   ensures [C18.dec-frame] ConsumedSome(r)
+
+// Encoder of the status report. The followers are written in map iteration order, so the round trip is stated per
+// key. The decoder files each follower under its ID field, so the round trip needs key == ID (FlrKeysOK: what
+// (*Raft).info builds); under it gwpos[k] is the position at which the follower with key k was written.
+// (Not stated: that the follower region holds nothing else, i.e. its total length, which is a sum over the map. The
+// count written in front of it is len(Followers).)
+//@ ghost var gwpos map[uint64]uint64
+//@ ghost var gwprev int
+// ginfoc1 / ginfoc2: lengths of the two configuration encodings produced during the call (they must be < 4 GiB for
+// the entry header to hold their length)
+//@ ghost var ginfoc1 int
+//@ ghost var ginfoc2 int
+//@ pure InfoCfgsFit() bool = ginfoc1 < 4294967296 && ginfoc2 < 4294967296
+//@ pure EncReplFull(d int, q int, v Replication) bool = EncRepl(d, q, v) && gword(d, q + 16) == ite(v.Unreachable == nil, 0, U64(tnano(v.Unreachable.wall, v.Unreachable.ext)))
+//@ pure FlrKeysOK(v Info) bool = forall(k, has(v.Followers, k) ==> v.Followers[k].ID == k)
+//@ pure InfoEncodable(v Info) bool = len(v.Addr) < 4294967296 && len(v.Followers) < 4294967296 && forall(k, has(v.Followers, k) ==> len(v.Followers[k].ErrMessage) < 4294967296)
+//@ pure FlrAt(d int, lo int, hi int, v Info, k uint64) bool = lo <= gwpos[k] && gwpos[k] + ReplLen(v.Followers[k]) <= hi && EncReplFull(d, gwpos[k], v.Followers[k])
+//@ func (Info).encode
+//@   requires [PA.unreachable-is-not-the-epoch] forall(k, has(info.Followers, k) && info.Followers[k].Unreachable != nil ==> tnano(info.Followers[k].Unreachable.wall, info.Followers[k].Unreachable.ext) != 0)
+//@   requires w != nil
+//@   modifies wdata, wlen, ginfoc1, ginfoc2, gwpos, gwprev
+//@   ghostcode after call encode 1: ginfoc1 := len(result0.data)
+//@   ghostcode after call encode 3: ginfoc2 := len(result0.data)
+//@   ghostcode after call writeUint32 1: gwprev := wlen[ref(w)]
+//@   ghostcode after call encode 5: gwpos[flr.ID] := gwprev
+//@   ghostcode after call encode 5: gwprev := wlen[ref(w)]
+//@   loop 1 invariant subset(visitedset(), keys(flrs)) && WroteSome(w) && gwprev == wlen[ref(w)]
+//@   loop 1 invariant len(info.Addr) < 4294967296 ==> EncInfoHdr(wdata[ref(w)], old(wlen[ref(w)]), info) && wlen[ref(w)] >= old(wlen[ref(w)]) + 85 + len(info.Addr)
+//@   loop 1 invariant InfoEncodable(info) && InfoCfgsFit() ==> EncCfgHdr(wdata[ref(w)], InfoQ1(wdata[ref(w)], old(wlen[ref(w)])), info.Configs.Committed) && EncCfgHdr(wdata[ref(w)], InfoQ2(wdata[ref(w)], old(wlen[ref(w)])), info.Configs.Latest) && InfoN(wdata[ref(w)], old(wlen[ref(w)])) == len(info.Followers) && wlen[ref(w)] >= InfoQ3(wdata[ref(w)], old(wlen[ref(w)])) + 4
+//@   loop 1 invariant [C18.info-enc-followers] InfoEncodable(info) && InfoCfgsFit() && FlrKeysOK(info) ==> forall(k, visited(k) ==> FlrAt(wdata[ref(w)], InfoQ3(wdata[ref(w)], old(wlen[ref(w)])) + 4, wlen[ref(w)], info, k))
+//@   ensures [C18.info-enc] result0 == nil && len(info.Addr) < 4294967296 ==> EncInfoHdr(wdata[ref(w)], old(wlen[ref(w)]), info)
+//@   ensures [C18.info-enc-configs] result0 == nil && InfoEncodable(info) && InfoCfgsFit() ==> EncCfgHdr(wdata[ref(w)], InfoQ1(wdata[ref(w)], old(wlen[ref(w)])), info.Configs.Committed) && EncCfgHdr(wdata[ref(w)], InfoQ2(wdata[ref(w)], old(wlen[ref(w)])), info.Configs.Latest)
+//@   ensures [C18.info-enc-count] result0 == nil && InfoEncodable(info) && InfoCfgsFit() ==> InfoN(wdata[ref(w)], old(wlen[ref(w)])) == len(info.Followers) && wlen[ref(w)] >= InfoQ3(wdata[ref(w)], old(wlen[ref(w)])) + 4
+//@   ensures [C18.info-enc-followers] result0 == nil && InfoEncodable(info) && InfoCfgsFit() && FlrKeysOK(info) ==> forall(k, has(info.Followers, k) ==> FlrAt(wdata[ref(w)], InfoQ3(wdata[ref(w)], old(wlen[ref(w)])) + 4, wlen[ref(w)], info, k))
+//@   ensures [C18.enc-frame] WroteSome(w)
+
+// ---- request / response plumbing ---------------------------------------------------------------
+// the request object created for a wire type has that type (so the bytes that follow the type byte are decoded by
+// the matching decoder); an invalid type byte is a panic, not a value
+//@ func (rpcType).createReq
+//@   requires [C18.createreq-valid] t == rpcIdentity || t == rpcVote || t == rpcAppendEntries || t == rpcInstallSnap || t == rpcTimeoutNow
+//@   ensures [C18.createreq-type] ptrnonnil(result0) && (t == rpcIdentity ==> istype(result0, *identityReq)) && (t == rpcVote ==> istype(result0, *voteReq)) && (t == rpcAppendEntries ==> istype(result0, *appendReq)) && (t == rpcInstallSnap ==> istype(result0, *installSnapReq)) && (t == rpcTimeoutNow ==> istype(result0, *timeoutNowReq))
+//@   ensures [C18.createreq-fresh] isfresh(ref(result0))
+
+//@ func (*resp).setErr
+//@   modifies resp.err
+//@   ensures [C18.resp-seterr] resp.err == err && resp.term == old(resp.term) && resp.result == old(resp.result)
+
+// ---- snapshot label (meta file) -----------------------------------------------------------------
+// DISABLED ALTERNATIVE (lines `//ALT@`): verif_contracts_fsm.go holds TRUSTED contracts of (*snapshotMeta).encode/decode
+// in terms of the abstract label of the meta file (LabelAt), which the fsm / repl proofs use; two contracts for one
+// key are an error. The byte-level contracts below VERIFY (encode 12/12, decode 40/40, 4 mutants caught) when the
+// trusted block in verif_contracts_fsm.go is removed and `//ALT@` is replaced by `//@`. To adopt them: make these the
+// func contracts and turn the label contracts into `view ... at <callers>`.
+// index (8) | term (8) | entry of the configuration (21 + lc) | size (8)
+//ALT@ ghost var gmetac int
+//ALT@ func (*snapshotMeta).encode
+//ALT@   requires w != nil
+//ALT@   modifies wdata, wlen, gmetac
+//ALT@   ghostcode after call encode 1: gmetac := len(result0.data)
+//ALT@   ensures [C18.meta-enc] result0 == nil && gmetac < 4294967296 ==> Wrote(w, 45 + gmetac) && gword(wdata[ref(w)], old(wlen[ref(w)])) == m.index && gword(wdata[ref(w)], old(wlen[ref(w)]) + 8) == m.term && EncCfgHdr(wdata[ref(w)], old(wlen[ref(w)]) + 16, m.config) && gword32(wdata[ref(w)], old(wlen[ref(w)]) + 33) == gmetac && gword(wdata[ref(w)], wlen[ref(w)] - 8) == U64(m.size)
+//ALT@   ensures [C18.enc-frame] WroteSome(w)
+
+//ALT@ func (*snapshotMeta).decode
+//ALT@   requires r != nil
+//ALT@   modifies rpos, all(m), entry.index, entry.term, entry.typ, entry.data, elems(uint8), contents(m.config.Nodes)
+//ALT@   ensures [C18.meta-dec] result0 == nil ==> m.index == gword(rdata[ref(r)], old(rpos[ref(r)])) && m.term == gword(rdata[ref(r)], old(rpos[ref(r)]) + 8) && EncCfgHdr(rdata[ref(r)], old(rpos[ref(r)]) + 16, m.config)
+//ALT@   ensures [C18.meta-dec-size] result0 == nil ==> rpos[ref(r)] == old(rpos[ref(r)]) + 45 + gword32(rdata[ref(r)], old(rpos[ref(r)]) + 33) && m.size == S64(gword(rdata[ref(r)], rpos[ref(r)] - 8))
+//ALT@   ensures [C18.truncated-is-error] result0 == nil ==> rpos[ref(r)] <= rend[ref(r)] || old(rpos[ref(r)]) > old(rend[ref(r)])
+//ALT@   ensures [C18.dec-frame] ConsumedSome(r)
